@@ -5,6 +5,7 @@
   regenerated from the source).  Spec: Nervus.Spec.OrderedValue.
 -/
 import Nervus.Proofs.OKey
+import Nervus.Proofs.F64Bits
 namespace Nervus.Props.C27
 open Nervus Nervus.OKey
 
@@ -126,6 +127,20 @@ theorem index_key_order (i : Nat) (a b : OV) (n m : Nat) (ha : Valid a) (hb : Va
             simp only [properPrefix_cons, beq_self_eq_true, Bool.true_and] at h2
             exact ih qs c d h1 h2
   exact key _ _ _ _ hlt hpf
+
+/-! ### the Spec's float order IS the IEEE-754 order (link to the dyadic float model `Nervus.F64`) -/
+
+/-- **C27 (float order = IEEE order)**: on non-NaN doubles the Spec's `lt` (sign-magnitude key `fkey`) is exactly
+    `<` of the values the bit patterns denote (`F64.ofBits`: exact IEEE-754 field decoding, compared as dyadic
+    rationals) — no assumption about "IEEE order = sign-magnitude order" is left. -/
+theorem float_lt_is_ieee (a b : Nat) (ha : Valid (.float a)) (hb : Valid (.float b)) :
+    lt (.float a) (.float b) ↔ F64.lt (F64.ofBits a) (F64.ofBits b) = true :=
+  fkey_lt_iff a b ha.1 hb.1 ha.2 hb.2
+
+/-- **C27 (float equality = IEEE equality)**: the Spec's `eqv` on non-NaN doubles is IEEE `==` (±0.0 equal) -/
+theorem float_eqv_is_ieee (a b : Nat) (ha : Valid (.float a)) (hb : Valid (.float b)) :
+    eqv (.float a) (.float b) ↔ F64.eqv (F64.ofBits a) (F64.ofBits b) = true :=
+  fkey_eq_iff a b ha.1 hb.1 ha.2 hb.2
 
 /-! non-vacuity: concrete values meeting the hypotheses, including the ±0.0 corner -/
 example : Valid (.float 0x8000000000000000) ∧ Valid (.float 0) ∧
